@@ -90,7 +90,8 @@ IDENTITY_HEAVY = dict(
 DUP_HEAVY = dict(
     w_dup=22, w_bf=26, w_sb=24, w_q=18, p_catch=0.85, n_steps=(3, 6),
     p_mutate_step=0.15, n_groups=(1, 2), n_paths=(3, 6), w_raise=8,
-    p_two_variants=0.6, p_version_change=0.15)
+    p_two_variants=0.6, p_version_change=0.15, p_cycle=0.3,
+    p_switch_root=0.5)
 BYVALUE_HEAVY = dict(
     w_mut=22, w_bf=22, w_sb=22, w_q=24, p_ret_val=0.6, args_pool='rich',
     query_kinds=['list_dir', 'walk', 'walk_bu', 'exists', 'is_dir'],
